@@ -158,7 +158,7 @@ fn v_cat<T: Message + Default + Clone + Glue>(s: &Arc<Schema>, ma: &DynMsg, mb: 
 }
 
 pub fn exec(verb: &str, items: &[Sexp], o: &mut Oracle) -> Option<String> {
-    if !matches!(verb, "pbeenc" | "pbedec" | "pbemrg" | "pbedld" | "pbecat") { return None; }
+    if !matches!(verb, "pbeenc" | "pbedec" | "pbemrg" | "pbedld" | "pbecat" | "pbespecchk") { return None; }
     let a = |i: usize| items.get(i).and_then(|x| x.atom());
     let bad = || Some("bad-request".to_string());
     let tb = table();
@@ -170,6 +170,21 @@ pub fn exec(verb: &str, items: &[Sexp], o: &mut Oracle) -> Option<String> {
         rs == **s && ri == e.idx
     };
     Some(match verb {
+        "pbespecchk" => {
+            // pbespecchk <type> <pschema> <i> <msg> <hex>: hex is claimed to be a conforming encoding of msg  -> ok 1 <emitted decode>
+            use crate::shared::refcodec::{pschema_of_sexp, ref_decode};
+            let (Some(ps), Some(ri)) = (items.get(2).and_then(pschema_of_sexp), a(3).and_then(|x| x.parse::<usize>().ok())) else { return bad() };
+            if ps != **s || ri != e.idx { return bad() }
+            let (Some(m), Some(input)) = (items.get(4).and_then(|x| m_of_sexp(s, e.idx, false, x)), a(5).and_then(unhex)) else { return bad() };
+            let ans = (e.ops.dec)(s, e.idx, input, o);
+            if ans != format!("ok {}", m_sexp(&m)) { o.fail("C06", format!("emitted decode of a conforming encoding: {}", ans)); }
+            let enc = (e.ops.raw_enc)(&m);
+            match ref_decode(s, e.idx, false, &enc) {
+                Some(m3) if m_same(&m, &m3) || (!FLAG_ON && m_same(&norm_negzero(&m), &m3)) => {}
+                other => o.fail("C06", format!("the reference decoder reads the emitted encoding {} as {}", hex(&enc), other.as_ref().map(m_sexp).unwrap_or("err".into()))),
+            }
+            match ans.strip_prefix("ok ") { Some(rest) => format!("ok 1 {}", rest), None => format!("ok 1 {}", ans) }
+        }
         "pbeenc" | "pbecat" => {
             if a(2) != Some(flag_name()) { return Some("bad-flag".into()) }
             if !check(3) { return bad() }
